@@ -1,6 +1,7 @@
 import Gallia.Lib.Proto
 import Gallia.Model.SessionScan
 import Gallia.Model.SessionScanS
+import Gallia.Model.SessionDb
 open Gallia Gallia.Proto Gallia.SessionScan
 
 /-
@@ -14,6 +15,9 @@ open Gallia Gallia.Proto Gallia.SessionScan
       (s = no answer, b = busyRepeatRequest, - = handled)
       gh: the ECU's answers to a hooked attempt (default: the same graph); hp / hq: requests of set_session_pre /
       set_session_post of the ECU class; boot: pings left unanswered after an accepted reset
+    dbreset                          an empty database (Model/SessionDb.lean); answers `ok`
+    dbscan <the fields of scan>      the scan run into the driver's database under the next run id (`nextRun`); answers
+                                     `run=<id> mine=<rows of this run read back: s@a.b;...|-> others=<number of rows of other runs>`
     spec d=<n> skip=<csv|-> g=<edges|-> [gh=.. hk=.. hp=..] rep=<s@a.b.c;...|->   (evaluated on the effective graph `edge`)
   edges: `a>b:p` (positive) `a>b:s` (silent) `a>b:n<dec>` (NRC) `a>b:i<0|1><kind>` (a reply the client refuses; 1 = the
          ECU switched session), comma separated; absent = NRC 0x12
@@ -185,4 +189,24 @@ def step (line : String) : String :=
   | "spec" :: rest => runSpec (parseKv rest)
   | _ => "bad-op"
 
-def main : IO Unit := loopLines step
+/-- the scan of a `scan` line run into the database `db` -/
+def runDbScan (db : Table) (kv : List (String × String)) : Table × String :=
+  let c := mkCfg kv
+  let t := parseGraph (field kv "g")
+  let ra := (parseAns (field kv "rst")).getD .pos
+  let th := if field kv "gh" == "-" then t else parseGraph (field kv "gh")
+  let boot := (field kv "boot").toNat?.getD 0
+  let E : Ecu := { g := graphFn t, rst := fun _ => ra, gh := graphFn th, boot := fun _ => boot }
+  let run := nextRun db
+  let db2 := scanIntoDb c E db run
+  let mine := (rowsOf db2 run).map fun (s, stack) => s!"{s}@{dots stack}"
+  let others := (db2.filter fun r => r.run != run).length
+  (db2, s!"run={run} mine={semi mine} others={others}")
+
+def stepDb (db : Table) (line : String) : Table × String :=
+  match words line with
+  | "dbreset" :: _ => ([], "ok")
+  | "dbscan" :: rest => runDbScan db (parseKv rest)
+  | _ => (db, step line)
+
+def main : IO Unit := loopState ([] : Table) stepDb
